@@ -63,6 +63,14 @@ class Gen:
             if m < 0.5:
                 return [r.choice([0, 1, 6, 17, 47, 58, 143, 144, 145, 255])]
             return [r.randrange(256)]
+        if kind == "Ip6Addr" and r.random() < 0.25:
+            # special-purpose addresses: IPv4-mapped, IPv4-compatible, loopback, unspecified, link-local
+            return r.choice([[0] * 10 + [255, 255] + [r.randrange(256) for _ in range(4)],
+                             [0] * 12 + [r.randrange(1, 256) for _ in range(4)],
+                             [0] * 15 + [1], [0] * 16,
+                             [0xFE, 0x80] + [0] * 6 + [r.randrange(256) for _ in range(8)]])
+        if kind == "Ip4Addr" and r.random() < 0.15:
+            return r.choice([[0, 0, 0, 0], [255, 255, 255, 255], [127, 0, 0, 1], [224, 0, 0, 1]])
         if kind == "Float64":
             m = r.random()
             if m < 0.15:
@@ -79,6 +87,14 @@ class Gen:
             return r.choice([1, 2, 3, 4, 8, 16])
         if kind == "SignedDataNumber":
             return r.choice([1, 2, 3, 4])
+        if kind == "Ip6Addr" and r.random() < 0.25:
+            # special-purpose addresses: IPv4-mapped, IPv4-compatible, loopback, unspecified, link-local
+            return r.choice([[0] * 10 + [255, 255] + [r.randrange(256) for _ in range(4)],
+                             [0] * 12 + [r.randrange(1, 256) for _ in range(4)],
+                             [0] * 15 + [1], [0] * 16,
+                             [0xFE, 0x80] + [0] * 6 + [r.randrange(256) for _ in range(8)]])
+        if kind == "Ip4Addr" and r.random() < 0.15:
+            return r.choice([[0, 0, 0, 0], [255, 255, 255, 255], [127, 0, 0, 1], [224, 0, 0, 1]])
         if kind == "Float64":
             return 8
         if kind.startswith("Duration"):
@@ -425,6 +441,12 @@ def hostile_templates_session(g):
     for tid, fs in shapes:
         ixt = b16(tid) + b16(len(fs)) + [x for t, l in fs for x in b16(t) + b16(l)]
         ops.append(call("A", g.ix_msg([g.set_(2, ixt)])))
+    # options templates whose scope / option lengths are not multiples of four (accepted: len/4 fields, rest padding)
+    sl, ol = r.choice([2, 5, 6, 7, 9]), r.choice([3, 5, 6, 10])
+    otx = b16(261) + b16(sl) + b16(ol) + [x for _ in range(sl // 4) for x in b16(r.randrange(1, 6)) + b16(2)] \
+        + [x for _ in range(ol // 4) for x in b16(r.choice([1, 2, 10])) + b16(2)] + [0] * r.choice([0, 1, 2, 3])
+    ops.append(call("A", g.v9_hdr(1) + g.set_(1, otx)))
+    ops.append(call("A", g.v9_hdr(1) + g.set_(261, g.rbytes(r.choice([4, 8, 12])))))
     for tid in (256, 257, 258, 259, 260):
         body = [r.randrange(256) for _ in range(r.choice([0, 1, 4, 16, 64, 300]))]
         ops.append(call("A", g.v9_hdr(1) + g.set_(tid, body)))
@@ -623,6 +645,18 @@ def scale_sessions(g, tier):
     sess(t1, g.ix_msg([g.set_(256, [1])] * ns))
     sess(v1, b16(9) + b16(ns) + [0] * 16 + g.set_(256, [1]) * ns)
     sess(b16(9) + b16(16000) + [0] * 16 + [0, 0, 0, 4] * 16000)
+    # 9. a large cache, then a buffer packed with small template flowsets / sets (cost must not be cache x sets)
+    nt = 1200 if tier == "quick" else 1500
+    many_ot = [x for i in range(nt) for x in b16(2000 + i) + b16(4) + b16(4) + b16(1) + b16(2) + b16(2) + b16(2)]
+    many_t = [x for i in range(nt) for x in b16(0) + b16(12) + b16(4000 + i) + b16(1) + b16(1) + b16(4)]
+    sess(g.v9_hdr(1) + g.set_(1, many_ot), b16(9) + b16(nt) + [0] * 16 + many_t)
+    many_t9 = [x for i in range(nt) for x in b16(2000 + i) + b16(1) + b16(1) + b16(4)]
+    many_os = [x for i in range(nt) for x in b16(1) + b16(18) + b16(4000 + i) + b16(4) + b16(4) + b16(1) + b16(2) + b16(2) + b16(2)]
+    sess(g.v9_hdr(1) + g.set_(0, many_t9), b16(9) + b16(nt) + [0] * 16 + many_os)
+    ix_ot = g.ix_msg([g.set_(3, b16(2000 + i) + b16(2) + b16(1) + b16(1) + b16(4) + b16(2) + b16(4)) for i in range(nt)])
+    ix_t = g.ix_msg([g.set_(2, b16(4000 + i) + b16(1) + b16(1) + b16(4)) for i in range(nt)])
+    sess(ix_ot, ix_t)
+    sess(ix_t, g.ix_msg([g.set_(3, b16(2000 + i) + b16(2) + b16(1) + b16(1) + b16(4) + b16(2) + b16(4)) for i in range(nt)]))
     ops = []
     for s in S:
         ops += s
